@@ -40,7 +40,7 @@ func genModelCaseT(r vlib.Rnd, plain, transform bool) (*vlib.Case, *mdl.Doc, *md
 	tree := mdl.BuildTree(doc, opts)
 	macros, cuts, ragged := 0, 0, 0
 	if transform && !plain {
-		if vlib.Chance(r, 1, 3) {
+		if vlib.Chance(r, 1, 2) {
 			var rg int
 			tree, macros, _, rg = mdl.MacroizeRagged(r, tree, 1+r.Intn(3), true)
 			ragged += rg
@@ -135,7 +135,7 @@ func c02Classify(c *vlib.Case) (bool, []string) {
 }
 
 var c02Model = &vlib.Check{
-	Prop: "C02", Name: "model", Quick: 3000, Thorough: 480000,
+	Prop: "C02", Name: "model", Quick: 6000, Thorough: 480000,
 	Oracle: c02Oracle, Classify: c02Classify,
 	Gen: func(t *rapid.T) *vlib.Case {
 		r := vlib.RapidRnd{T: t}
